@@ -10,6 +10,8 @@ package redis
 //                          are NOT constructed at the start of the section but by an explicit `new <i>` op
 // ops:  ft <ms> | acquire <i> | release <i> | setexpire <i> <seconds> | ids
 //       acquirectx <i> | releasectx <i>   the same calls entered through AcquireCtx / ReleaseCtx with a caller's context
+//       mass <m>           m further NewRedisLock calls on key k0 (instances dropped afterwards): all ids pairwise distinct and
+//                          distinct from the section's instances?  (birthday test of the id space) => distinct | dup
 //       new <i>            NewRedisLock for a lazy instance, in the middle of the history (after SetExpire calls on
 //                          other instances, while others hold locks): its id must differ from every other instance's,
 //                          its `seconds` must be the zero value (nothing is inherited from other instances)
@@ -386,6 +388,9 @@ func c19Gen(r *verifh.Rng) []verifh.Section {
 			return cands[r.Intn(len(cands))]
 		}
 		add("ids")
+		if r.Chance(1, 5) {
+			add("mass %d", r.Pick(100, 1000, 3000))
+		}
 		// most instances get a small number of seconds; some keep the zero value (lease = 500 ms)
 		for i := 0; i < n; i++ {
 			if r.Chance(3, 4) {
@@ -819,6 +824,26 @@ func TestVerifC19(t *testing.T) {
 				r, _ := simple(op[1:])
 				hook.disarm()
 				return fmt.Sprintf("%s %s %s", r, cmdsTok(), dump())
+			case op[0] == "mass" && len(op) == 2:
+				m := verifh.Atoi(op[1])
+				if m < 1 || m > 100000 {
+					return "bad-op"
+				}
+				seen := make(map[string]bool, m)
+				res := "distinct"
+				for a := 0; a < m; a++ {
+					l := NewRedisLock(client, "k0")
+					_, clash := idOf[l.id]
+					if seen[l.id] || clash {
+						res = "dup"
+					}
+					if len(l.id) != 16 || !alphaOK(l.id) {
+						res += " malformed"
+						break
+					}
+					seen[l.id] = true
+				}
+				return res + " " + dump()
 			case op[0] == "new" && len(op) == 2:
 				i := verifh.Atoi(op[1])
 				if i < 0 || i >= n || locks[i] != nil {
